@@ -85,12 +85,20 @@ def chunk(kind: str, suffix: str) -> str:
     return MENU[kind].replace("@", suffix)
 
 
+HEIR = "heir_of_observed_private_base"  # the unrelated modules hold further public subclasses of the OBSERVED module's private class
+ENDERS = [*KINDS, HEIR]
+
+
 def adjacency_pkg(ender: str | None) -> dict[str, str]:
     """One observed module per kind (p<jj>b); with an ender, two unrelated modules holding that kind around each (p<jj>a, p<jj>c)."""
     files = {f"{PKG}/__init__.py": ""}
     for j, kind in enumerate(KINDS):
         files[f"{PKG}/p{j:02d}b.py"] = HEADER + "\n\n" + chunk(kind, f"v{j:02d}")
-        if ender is not None:
+        if ender == HEIR:
+            if kind == "cls_internal_base":
+                for side in ("a", "c"):
+                    files[f"{PKG}/p{j:02d}{side}.py"] = f"from {PKG}.p{j:02d}b import _Bv{j:02d}\n\n\nclass Heir{side}{j:02d}(_Bv{j:02d}):\n    pass\n"
+        elif ender is not None:
             files[f"{PKG}/p{j:02d}a.py"] = HEADER + "\n\n" + chunk(ender, f"ua{j:02d}")
             files[f"{PKG}/p{j:02d}c.py"] = HEADER + "\n\n" + chunk(ender, f"uc{j:02d}")
     return files
@@ -259,7 +267,7 @@ def run(rep: Report, tier: str, seed: int) -> None:
     jobs = []
     for oi, o in enumerate(styles):
         jobs.append((("adj", None, oi), job_run_files, (adjacency_pkg(None), PKG, o)))
-        for e in KINDS:
+        for e in ENDERS:
             jobs.append((("adj", e, oi), job_run_files, (adjacency_pkg(e), PKG, o)))
         jobs.append((("ord", False, oi), job_run_files, (order_pkg(False), PKG, o)))
         jobs.append((("ord", True, oi), job_run_files, (order_pkg(True), PKG, o)))
@@ -269,7 +277,7 @@ def run(rep: Report, tier: str, seed: int) -> None:
     realised: set[tuple[str, str]] = set()
     for oi, o in enumerate(styles):
         base = got[("adj", None, oi)]
-        for e in KINDS:
+        for e in ENDERS:
             obs = got[("adj", e, oi)]
             files = adjacency_pkg(e)
             if base.outcome != "completed" or obs.outcome != "completed":
